@@ -1,3 +1,4 @@
+#![allow(dead_code)]
 // Shared helpers of the correspondence harness: exact float transport and
 // panic classification.
 use std::panic::{catch_unwind, AssertUnwindSafe};
@@ -82,4 +83,21 @@ impl<'a> Toks<'a> {
 pub fn cps(s: &str) -> String {
     let v: Vec<String> = s.chars().map(|c| (c as u32).to_string()).collect();
     format!("{} {}", v.len(), v.join(" ")).trim_end().to_string()
+}
+
+/// stdin -> one result line per non-empty input line, each case under catch_unwind
+pub fn main_loop(f: fn(&str) -> String) {
+    use std::io::{BufRead, Write};
+    std::panic::set_hook(Box::new(|_| {}));
+    let stdin = std::io::stdin();
+    let out = std::io::stdout();
+    let mut out = std::io::BufWriter::new(out.lock());
+    for line in stdin.lock().lines() {
+        let line = line.expect("line");
+        if line.trim().is_empty() {
+            continue;
+        }
+        let r = guarded(|| f(&line));
+        writeln!(out, "{r}").unwrap();
+    }
 }
